@@ -93,6 +93,28 @@ def handle : Handler
       let d ← intList? d
       let want := tab k (hopDist k e (fun v => src.contains v))
       some (if d == want then "holds" else "fails want=" ++ showList want)) "bad-args"
+  -- bipartite answer: the two returned vectors separately (the split point is part of the specification)
+  | "c10.spec_bdist", [n, m, ip, ix, dt, tr, s, rows, cols] => some <| Option.getD (do
+      let (k, e) ← specGraph n m ip ix dt tr "1"
+      let c ← csrRat? n m ip ix dt
+      let t ← bool? tr
+      let r := if t then c.nCol else c.nRow
+      let src ← natList? s
+      let rows ← intList? rows
+      let cols ← intList? cols
+      let want := tab k (hopDist k e (fun v => src.contains v))
+      some (if rows.length == r && rows ++ cols == want then "holds"
+            else s!"fails nRow={r} want=" ++ showList want)) "bad-args"
+  -- shortest-path DAG with the number of nodes of the returned matrix
+  | "c10.spec_path", [n, m, ip, ix, dt, tr, bip, s, size, ps] => some <| Option.getD (do
+      let (k, e) ← specGraph n m ip ix dt tr bip
+      let src ← natList? s
+      let size ← size.toNat?
+      let ps ← pairs? ps
+      let hd := hopDist k e (fun v => src.contains v)
+      let want := (List.range k).flatMap fun i => ((List.range k).filter fun j =>
+        e i j && decide (0 ≤ hd i) && hd j == hd i + 1).map fun j => (i, j)
+      some (if size == k && sortPairs ps == want then "holds" else s!"fails size={k} want=" ++ showPairs want)) "bad-args"
   | "c10.spec_path", [n, m, ip, ix, dt, tr, bip, s, ps] => some <| Option.getD (do
       let (k, e) ← specGraph n m ip ix dt tr bip
       let src ← natList? s
